@@ -27,7 +27,8 @@ CONSTANTS
   TaintKinds,   \* ExtTaint values: subset of {"now","bad","future","zero"}
   InitNodes,    \* number of nodes present initially
   PropIds,      \* property ids whose predicates are asserted on every outcome
-  EmitRate      \* 0: emit nothing; r > 0: emit about one in r distinct states as a replay case
+  EmitRate,     \* 0: emit nothing; r > 0: emit about one in r distinct states as a replay case
+  AV            \* value sets for InitAll (the all-states configurations): a record, see InitAll
 
 VARIABLES now, api, run, pend, asg, pc, ctl, accepted, alive
 
@@ -62,6 +63,34 @@ Init ==
   /\ ctl = Ctl0
   /\ accepted = Never
   /\ alive = TRUE
+
+\* "For every cluster state": every well-typed state over the value sets of AV is an initial state (now = 10); used with
+\* NEXT Stutter and the invariant InvNoViolation, so that no reachability argument is involved at all.
+\*   AV.minNodes         least number of present nodes        AV.created  set of creation instants (relative to now)
+\*   AV.cordoned, AV.force, AV.nodel   subsets of BOOLEAN      AV.taint    set of taint ages; -1 = no taint, -2 = unparsable value, -3 = far future
+\*   AV.run, AV.pend     sets of pod counts                    AV.extra    set of (desired - number of members)
+\*   AV.lost             subsets of BOOLEAN: may an instance be missing from the ASG although its Node exists
+\*   AV.lock             set of lock ages, -1 = never locked    AV.delta    set of remembered deltas
+TaintAV(k) == IF k = -1 THEN NoTaint ELSE IF k = -2 THEN [has |-> TRUE, ok |-> FALSE, at |-> 0]
+              ELSE IF k = -3 THEN [has |-> TRUE, ok |-> TRUE, at |-> 1000000] ELSE [has |-> TRUE, ok |-> TRUE, at |-> 10 - k]
+NodeShapes == {[created |-> 10 - c, cordoned |-> co, force |-> f, nodel |-> nd, taint |-> TaintAV(t), pid |-> "ok", cpu |-> KC, mem |-> KM] :
+                 c \in AV.created, co \in AV.cordoned, f \in AV.force, nd \in AV.nodel, t \in AV.taint}
+InitAll ==
+  /\ now = 10
+  /\ \E P \in {Q \in SUBSET NodeIds : Cardinality(Q) >= AV.minNodes} :
+       /\ api \in [P -> NodeShapes]
+       /\ run \in {r \in [NodeIds -> AV.run] : \A n \in NodeIds \ P : r[n] = 0}
+       /\ \E M \in (IF TRUE \in AV.lost THEN SUBSET P ELSE {P}), e \in AV.extra :
+            asg = [min |-> AsgMin0, max |-> AsgMax0, desired |-> Cardinality(M) + e, members |-> M]
+  /\ pend \in AV.pend
+  /\ pc = asg
+  /\ \E la \in AV.lock, d \in AV.delta :
+       /\ ctl = [Ctl0 EXCEPT !.lockAt = IF la < 0 THEN Never ELSE 10 - la, !.isLocked = la >= 0, !.requested = IF la >= 0 THEN 1 ELSE 0, !.delta = d,
+                             !.lastOut = IF d > 0 THEN 9 ELSE Never,
+                             !.minEff = IF CfgC.auto THEN AsgMin0 ELSE CfgC.min, !.maxEff = IF CfgC.auto THEN AsgMax0 ELSE CfgC.max]
+       /\ accepted = IF la < 0 THEN Never ELSE 10 - la
+  /\ alive = TRUE
+Stutter == UNCHANGED vars
 
 -----------------------------------------------------------------------------
 (* Environment *)
